@@ -4,9 +4,10 @@
 use serde_json::{Value, json};
 use sha3::Digest;
 
-use crate::model::{Access, DBS, Model, token};
+use crate::model::{Access, Model, token};
+use crate::names::{dbn, missing, nowhere_name, primary, well_formed};
 use crate::table::{Effect, Tables, UNKNOWN_METHODS};
-use crate::world::{ADMIN_KEY, Auth, COLLECTION, DB_MISSING, DB_NOWHERE, Enc, MAX_BODY, PRIMARY, Req, collection_params};
+use crate::world::{ADMIN_KEY, Auth, COLLECTION, Enc, MAX_BODY, Req, collection_params};
 
 pub fn sha3_hex(s: &str) -> String {
     let mut h = sha3::Sha3_256::new();
@@ -110,10 +111,10 @@ pub fn principals(m: &Model) -> Vec<Principal> {
             } else {
                 "unissued-key"
             };
-            push(format!("key:{}:{i}", DBS[db]), kind, Auth::Bearer(token(db, i)));
+            push(format!("key:{}:{i}", dbn(db)), kind, Auth::Bearer(token(db, i)));
         }
         if let Some(t) = m.bound_token(db) {
-            push(format!("key-hash:{}", DBS[db]), "key-hash", Auth::Bearer(sha3_hex(&t)));
+            push(format!("key-hash:{}", dbn(db)), "key-hash", Auth::Bearer(sha3_hex(&t)));
         }
     }
     // constructed near misses of every key that exists (or existed) in this
@@ -121,7 +122,7 @@ pub fn principals(m: &Model) -> Vec<Principal> {
     let mut keys: Vec<(String, String)> = vec![("admin".to_string(), ADMIN_KEY.to_string())];
     for db in 0..2 {
         for i in 1..=m.dbs[db].issued {
-            keys.push((format!("key:{}:{i}", DBS[db]), token(db, i)));
+            keys.push((format!("key:{}:{i}", dbn(db)), token(db, i)));
         }
     }
     for (name, key) in keys {
@@ -149,6 +150,67 @@ pub fn in_focus(b: &Body) -> bool {
     }
 }
 
+/// Near spellings of a tenant database's name. None of them is the name
+/// (unless it happens to be the *other* database's name in some name
+/// universe, which is resolved by decoding the segment): a server that
+/// normalises, truncates, trims or pattern-matches names somewhere between
+/// the router and the key map answers them differently from a name that
+/// never existed.
+#[derive(Clone, Copy, Debug, PartialEq, Eq, PartialOrd, Ord, Hash)]
+pub enum Near {
+    /// `/ACME_EU`: the name in upper case (not a well-formed name).
+    Upper,
+    /// `/Acme_eu`: first byte in upper case only.
+    Capital,
+    /// The name without its last byte.
+    Trunc,
+    /// The name followed by `_`.
+    Ext,
+    /// The name with its separators removed or, if it has none, with one
+    /// inserted after the first byte.
+    Sep,
+    /// `/%2561cme`: decodes to a string that still holds a percent escape.
+    DoublePct,
+    /// The name followed by an encoded space.
+    Space,
+    /// The name followed by an encoded NUL.
+    Nul,
+}
+
+pub const NEARS: [Near; 8] = [Near::Upper, Near::Capital, Near::Trunc, Near::Ext, Near::Sep, Near::DoublePct, Near::Space, Near::Nul];
+
+impl Near {
+    pub fn as_str(&self) -> &'static str {
+        match self {
+            Near::Upper => "upper-case",
+            Near::Capital => "capitalised",
+            Near::Trunc => "truncated",
+            Near::Ext => "extended",
+            Near::Sep => "separator-variant",
+            Near::DoublePct => "double-percent-encoded",
+            Near::Space => "trailing-space",
+            Near::Nul => "trailing-nul",
+        }
+    }
+    /// (raw path, the segment as the router decodes it)
+    fn spell(&self, name: &str) -> (String, String) {
+        let plain = |s: String| (format!("/{s}"), s);
+        match self {
+            Near::Upper => plain(name.to_ascii_uppercase()),
+            Near::Capital => plain(format!("{}{}", name[..1].to_ascii_uppercase(), &name[1..])),
+            Near::Trunc => plain(name[..name.len() - 1].to_string()),
+            Near::Ext => plain(format!("{name}_")),
+            Near::Sep => plain(if name.contains('_') { name.replace('_', "") } else { format!("{}_{}", &name[..1], &name[1..]) }),
+            Near::DoublePct => {
+                let inner = format!("%{:02X}{}", name.as_bytes()[0], &name[1..]);
+                (format!("/%25{}", &inner[1..]), inner)
+            }
+            Near::Space => (format!("/{name}%20"), format!("{name} ")),
+            Near::Nul => (format!("/{name}%00"), format!("{name}\0")),
+        }
+    }
+}
+
 #[derive(Clone, Copy, Debug, PartialEq, Eq, PartialOrd, Ord, Hash)]
 pub enum TargetKind {
     /// `POST /`
@@ -159,18 +221,20 @@ pub enum TargetKind {
     Pct(usize),
     /// `POST /<db>?db_name=<other>&name=<other>`
     Query(usize),
-    /// `POST /ghost_db` (never created)
+    /// `POST /<missing>` (never created)
     Missing,
-    /// `POST /prime_store` (holds the server state)
+    /// `POST /<primary>` (holds the server state)
     Primary,
-    /// `POST /Alpha-DB%21` (decodes to a name no database can have)
+    /// `POST /<A capitalised>-DB%21` (decodes to a name no database can have)
     BadName,
-    /// `POST /alpha_db%2Fitems` (an encoded slash inside the segment)
+    /// `POST /<A>%2Fitems` (an encoded slash inside the segment)
     EncSlash,
     /// `POST /%FF%FE` (undecodable segment)
     BadUtf8,
-    /// `POST /alpha_db/items` (no such route)
+    /// `POST /<A>/items` (no such route)
     TwoSeg,
+    /// A near spelling of the name of database `.1`.
+    Near(Near, usize),
     /// `POST /nowhere_db`: the reference request of the oracle
     Nowhere,
 }
@@ -182,31 +246,71 @@ pub struct Target {
     /// Index of the database the decoded segment names, if A or B.
     pub db: Option<usize>,
     pub path_level: bool,
+    /// Sent with the small body subset only (`in_focus`): the decision these
+    /// spellings probe is taken from the path before the body is looked at.
+    pub focused: bool,
+    /// The decoded segment is a well-formed database name.
+    pub well_formed: bool,
+    /// The path segment as the router decodes it (empty: `/`, undecodable,
+    /// or more than one segment). It is the caller's own input: an answer
+    /// that echoes it tells the caller nothing.
+    pub decoded: String,
 }
 
 pub fn targets() -> Vec<Target> {
     let pct = |name: &str| format!("/%{:02X}{}", name.as_bytes()[0], &name[1..]);
-    let t = |kind, path: String, db, path_level| Target { kind, path, db, path_level };
-    let mut out = vec![t(TargetKind::Root, "/".into(), None, false)];
+    let resolve = |decoded: &str| (0..2).find(|d| dbn(*d) == decoded);
+    let t = |kind, path: String, decoded: &str, path_level| Target {
+        kind,
+        path,
+        db: resolve(decoded),
+        path_level,
+        focused: false,
+        well_formed: well_formed(decoded),
+        decoded: decoded.to_string(),
+    };
+    let mut out = vec![t(TargetKind::Root, "/".into(), "", false)];
     for db in 0..2 {
-        out.push(t(TargetKind::Db(db), format!("/{}", DBS[db]), Some(db), false));
+        out.push(t(TargetKind::Db(db), format!("/{}", dbn(db)), dbn(db), false));
     }
     for db in 0..2 {
-        out.push(t(TargetKind::Pct(db), pct(DBS[db]), Some(db), false));
-        let o = DBS[1 - db];
-        out.push(t(TargetKind::Query(db), format!("/{}?db_name={o}&name={o}&db={o}", DBS[db]), Some(db), false));
+        out.push(t(TargetKind::Pct(db), pct(dbn(db)), dbn(db), false));
+        let o = dbn(1 - db);
+        out.push(t(TargetKind::Query(db), format!("/{}?db_name={o}&name={o}&db={o}", dbn(db)), dbn(db), false));
     }
-    out.push(t(TargetKind::Missing, format!("/{DB_MISSING}"), None, false));
-    out.push(t(TargetKind::Primary, format!("/{PRIMARY}"), None, false));
-    out.push(t(TargetKind::BadName, "/Alpha-DB%21".into(), None, false));
-    out.push(t(TargetKind::EncSlash, format!("/{}%2F{COLLECTION}", DBS[0]), None, false));
-    out.push(t(TargetKind::BadUtf8, "/%FF%FE".into(), None, true));
-    out.push(t(TargetKind::TwoSeg, format!("/{}/{COLLECTION}", DBS[0]), None, true));
+    out.push(t(TargetKind::Missing, format!("/{}", missing()), missing(), false));
+    out.push(t(TargetKind::Primary, format!("/{}", primary()), primary(), false));
+    let a = dbn(0);
+    let cap = format!("{}{}", a[..1].to_ascii_uppercase(), &a[1..]);
+    out.push(t(TargetKind::BadName, format!("/{cap}-DB%21"), &format!("{cap}-DB!"), false));
+    out.push(t(TargetKind::EncSlash, format!("/{a}%2F{COLLECTION}"), &format!("{a}/{COLLECTION}"), false));
+    out.push(t(TargetKind::BadUtf8, "/%FF%FE".into(), "", true));
+    out.push(t(TargetKind::TwoSeg, format!("/{a}/{COLLECTION}"), "", true));
+    for db in 0..2 {
+        for near in NEARS {
+            let (path, decoded) = near.spell(dbn(db));
+            if decoded.is_empty() || decoded == primary() || out.iter().any(|t: &Target| t.path == path) {
+                // (the primary is a target of its own; an empty segment is `POST /`)
+                continue;
+            }
+            let mut n = t(TargetKind::Near(near, db), path, &decoded, false);
+            n.focused = true;
+            out.push(n);
+        }
+    }
     out
 }
 
 pub fn nowhere() -> Target {
-    Target { kind: TargetKind::Nowhere, path: format!("/{DB_NOWHERE}"), db: None, path_level: false }
+    Target {
+        kind: TargetKind::Nowhere,
+        path: format!("/{}", nowhere_name()),
+        db: None,
+        path_level: false,
+        focused: false,
+        well_formed: true,
+        decoded: nowhere_name().to_string(),
+    }
 }
 
 impl Target {
@@ -220,6 +324,10 @@ impl Target {
             TargetKind::Db(db) => dbclass(db),
             TargetKind::Pct(db) => format!("pct-encoded:{}", dbclass(db)),
             TargetKind::Query(db) => format!("with-query:{}", dbclass(db)),
+            TargetKind::Near(near, of) => {
+                let of = if principal_db == Some(of) { "own" } else { "other" };
+                format!("near-name:{}-of-{of}-db", near.as_str())
+            }
             _ => self.class(m, principal_db),
         }
     }
@@ -240,12 +348,26 @@ impl Target {
             TargetKind::Db(db) => dbclass(db),
             TargetKind::Pct(db) => format!("pct-encoded:{}", dbclass(db)),
             TargetKind::Query(db) => format!("with-query:{}", dbclass(db)),
-            TargetKind::Missing => "missing".into(),
+            TargetKind::Missing => match self.db {
+                Some(db) => format!("missing-is:{}", dbclass(db)),
+                None if self.well_formed => "missing".into(),
+                None => "missing:malformed".into(),
+            },
             TargetKind::Primary => "primary".into(),
             TargetKind::BadName => "bad-name".into(),
             TargetKind::EncSlash => "encoded-slash".into(),
             TargetKind::BadUtf8 => "bad-utf8".into(),
             TargetKind::TwoSeg => "two-segments".into(),
+            TargetKind::Near(near, of) => format!(
+                "near-name:{}:of-{}:{}",
+                near.as_str(),
+                dbclass(of),
+                match self.db {
+                    Some(db) => format!("is-{}", dbclass(db)),
+                    None if self.well_formed => "names-no-database".into(),
+                    None => "malformed".into(),
+                }
+            ),
             TargetKind::Nowhere => "nonexistent(reference)".into(),
         }
     }
@@ -279,7 +401,10 @@ pub enum Variant {
 }
 
 /// Databases named in the extra `db.set_api_key` bodies.
-pub const NAMED: [&str; 4] = [DBS[0], DBS[1], PRIMARY, DB_MISSING];
+pub fn named(i: usize) -> &'static str {
+    [dbn(0), dbn(1), primary(), missing()][i]
+}
+pub const NAMED_COUNT: usize = 4;
 pub const NAMED_CLASS: [&str; 4] = ["tenant", "tenant", "primary", "missing"];
 
 #[derive(Clone, Debug, PartialEq, Eq)]
@@ -320,7 +445,21 @@ impl Body {
     }
 }
 
-pub const PROBES: [&str; 6] = ["garbage", "empty", "oversized", "no-content-type", "text-plain", "missing-method"];
+/// Method-less probes. The last three vary the encoding negotiation: the
+/// response encoding follows `Accept` when present (here: the OTHER encoding
+/// than the body's), an unusable `Accept` falls back to the content type, and
+/// the content type is matched case-insensitively / with parameters.
+pub const PROBES: [&str; 9] = [
+    "garbage",
+    "empty",
+    "oversized",
+    "no-content-type",
+    "text-plain",
+    "missing-method",
+    "accept-other-encoding",
+    "accept-unusable",
+    "content-type-variant",
+];
 
 /// Order in which method bodies are sent inside one phase: read-only first,
 /// then mutating ones, the destructive ones last, so that earlier cells see
@@ -361,7 +500,7 @@ pub fn bodies(tables: &Tables) -> Vec<Body> {
     for (n, _) in &names {
         let mut variants = vec![Variant::Minimal, Variant::BadParams];
         if n == "db.set_api_key" {
-            variants.extend((0..NAMED.len()).map(Variant::GenKeyFor));
+            variants.extend((0..NAMED_COUNT).map(Variant::GenKeyFor));
             variants.extend([2, 3].map(Variant::ExplicitKeyFor));
         }
         for variant in variants {
@@ -458,13 +597,20 @@ fn generic_params(victim: &str) -> Value {
 impl Body {
     /// The request for this body at `path` in encoding `enc`.
     pub fn request(&self, path: &str, auth: Auth, enc: Enc, victim: &str) -> Req {
-        let mut req = Req { get: false, path: path.to_string(), auth, content_type: Some(enc.content_type()), body: Default::default() };
+        let mut req = Req {
+            verb: "POST",
+            path: path.to_string(),
+            auth,
+            content_type: Some(enc.content_type()),
+            accept: None,
+            body: Default::default(),
+        };
         match &self.kind {
             BodyKind::Method { name, variant } => {
                 let params = match variant {
                     Variant::BadParams => json!("these-params-are-a-string"),
-                    Variant::GenKeyFor(i) => json!({"name": NAMED[*i]}),
-                    Variant::ExplicitKeyFor(i) => json!({"name": NAMED[*i], "api_key": "explicit-key-2718"}),
+                    Variant::GenKeyFor(i) => json!({"name": named(*i)}),
+                    Variant::ExplicitKeyFor(i) => json!({"name": named(*i), "api_key": "explicit-key-2718"}),
                     Variant::Minimal => match minimal_params(name, victim) {
                         Value::String(_) => generic_params(victim),
                         p => p,
@@ -495,6 +641,24 @@ impl Body {
                         req.body = info;
                     }
                     "missing-method" => req.body = enc.encode(&json!({"params": {"collection": COLLECTION}})).into(),
+                    "accept-other-encoding" => {
+                        req.accept = Some(match enc {
+                            Enc::Cbor => "application/json",
+                            Enc::Json => "application/cbor",
+                        });
+                        req.body = info;
+                    }
+                    "accept-unusable" => {
+                        req.accept = Some("text/html, application/json;q=0");
+                        req.body = info;
+                    }
+                    "content-type-variant" => {
+                        req.content_type = Some(match enc {
+                            Enc::Cbor => "APPLICATION/CBOR",
+                            Enc::Json => "application/json; charset=utf-8",
+                        });
+                        req.body = info;
+                    }
                     other => unreachable!("probe {other}"),
                 }
             }
@@ -516,8 +680,8 @@ pub fn effect_at(tables: &Tables, target: &Target, name: &str) -> Option<Effect>
 /// Every body encoded once per (victim, encoding): the matrix sends each of
 /// them to every (principal, target).
 pub struct Prepared {
-    /// `[victim][body][enc]` -> (content type, bytes)
-    table: Vec<Vec<[(Option<&'static str>, bytes::Bytes); 2]>>,
+    /// `[victim][body][enc]` -> (content type, accept, bytes)
+    table: Vec<Vec<[(Option<&'static str>, Option<&'static str>, bytes::Bytes); 2]>>,
 }
 
 impl Prepared {
@@ -527,8 +691,8 @@ impl Prepared {
                 bs.iter()
                     .map(|b| {
                         [Enc::Cbor, Enc::Json].map(|enc| {
-                            let r = b.request("/", Auth::None, enc, DBS[victim]);
-                            (r.content_type, r.body)
+                            let r = b.request("/", Auth::None, enc, dbn(victim));
+                            (r.content_type, r.accept, r.body)
                         })
                     })
                     .collect()
@@ -538,7 +702,7 @@ impl Prepared {
     }
 
     pub fn request(&self, bi: usize, path: &str, auth: Auth, enc: Enc, victim: usize) -> Req {
-        let (content_type, body) = &self.table[victim][bi][if enc == Enc::Cbor { 0 } else { 1 }];
-        Req { get: false, path: path.to_string(), auth, content_type: *content_type, body: body.clone() }
+        let (content_type, accept, body) = &self.table[victim][bi][if enc == Enc::Cbor { 0 } else { 1 }];
+        Req { verb: "POST", path: path.to_string(), auth, content_type: *content_type, accept: *accept, body: body.clone() }
     }
 }
